@@ -21,8 +21,11 @@ import (
 // uacp/uasc is involved. Service bodies are encoded and decoded with the ua
 // codec, which is not what the properties using this server are about.
 type rawServer struct {
-	s    *sim.Sim
-	l    interface{ Accept() (net.Conn, error); Close() error }
+	s *sim.Sim
+	l interface {
+		Accept() (net.Conn, error)
+		Close() error
+	}
 	Ack  refcodec.Ack
 	Hel  []refcodec.Hello // every Hello received
 	mu   sync.Mutex
@@ -36,7 +39,7 @@ type rawServer struct {
 	// FreshTokenOnRenew makes renewals issue a new token id.
 	FreshTokenOnRenew bool
 	// OnOpen, if set, is called for OPN requests; returning false suppresses the default answer.
-	OnOpen func(c *rawSrvConn, reqID uint32, req *ua.OpenSecureChannelRequest) bool
+	OnOpen      func(c *rawSrvConn, reqID uint32, req *ua.OpenSecureChannelRequest) bool
 	nextChannel uint32
 	// Sec, if set to a secured configuration, makes the server speak that
 	// policy and mode with the reference implementation of the cryptography.
@@ -223,7 +226,9 @@ func encodeService(svc any) ([]byte, error) {
 }
 
 // Respond sends resp for reqID as one or more MSG chunks.
-func (c *rawSrvConn) Respond(reqID uint32, resp ua.Response) error { return c.respondAs("MSG", reqID, resp) }
+func (c *rawSrvConn) Respond(reqID uint32, resp ua.Response) error {
+	return c.respondAs("MSG", reqID, resp)
+}
 
 func (c *rawSrvConn) respondAs(typ string, reqID uint32, resp any) error {
 	body, err := encodeService(resp)
